@@ -15,6 +15,7 @@ def atom? : Sexp → Option Atom
 
 partial def expr? : Sexp → Option Expr
   | .list [.atom "V", .str n] => some (.var n)
+  | .list [.atom "SV", .str n] => some (.svar n)
   | .list (.atom "L" :: xs) => do let as ← xs.mapM atom?; pure (.lit (.list as))
   | .list (.atom "D" :: kvs) => do
       let ps ← kvs.mapM fun
@@ -23,6 +24,7 @@ partial def expr? : Sexp → Option Expr
       pure (.lit (.dict ps))
   | .list [.atom "EQ", a, b] => do let a ← expr? a; let b ← expr? b; pure (.eq a b)
   | .list [.atom "IX", a, b] => do let a ← expr? a; let b ← expr? b; pure (.ix a b)
+  | .list [.atom "SIX", a, b] => do let a ← expr? a; let b ← expr? b; pure (.six a b)
   | .list [.atom "NOT", a] => do let a ← expr? a; pure (.not a)
   | .list [.atom "LEN", a] => do let a ← expr? a; pure (.len a)
   | s => do let a ← atom? s; pure (.lit (.atom a))
@@ -110,12 +112,14 @@ def atomS : Atom → Sexp
 
 partial def exprS : Expr → Sexp
   | .var n => .list [.atom "V", .str n]
+  | .svar n => .list [.atom "SV", .str n]
   | .lit (.atom a) => atomS a
   | .lit (.list xs) => .list (.atom "L" :: xs.map atomS)
   | .lit (.dict kv) => .list (.atom "D" :: kv.map fun p => .list [.str p.1, atomS p.2])
   | .lit _ => .atom "BAD"
   | .eq a b => .list [.atom "EQ", exprS a, exprS b]
   | .ix a b => .list [.atom "IX", exprS a, exprS b]
+  | .six a b => .list [.atom "SIX", exprS a, exprS b]
   | .not a => .list [.atom "NOT", exprS a]
   | .len a => .list [.atom "LEN", exprS a]
 
